@@ -848,6 +848,10 @@ impl Axecutor {
         // envp[0] = NULL
         stack_layout.push(0);
 
+        // The entry frame lives above the requested `length` bytes of stack space,
+        // with some slack for the 16 byte alignment of the stack pointer
+        let frame_size = (stack_layout.len() as u64) * 8 + 48;
+
         let mut stack_start: u64 = 0x1000;
         loop {
             if stack_start >= 0x7fff_ffff_ffff_ffff {
@@ -857,11 +861,7 @@ impl Axecutor {
             }
 
             if self
-                .mem_init_zero_named(
-                    stack_start,
-                    length + (stack_layout.len() as u64) * 8,
-                    "Stack".to_string(),
-                )
+                .mem_init_zero_named(stack_start, length + frame_size, "Stack".to_string())
                 .is_ok()
             {
                 break;
@@ -871,7 +871,7 @@ impl Axecutor {
 
         // TODO: auxiliary vector
         // Make sure the stack is aligned to 16 bytes
-        let mut stack_top = (stack_start + length - 16) & !0xf;
+        let mut stack_top = (stack_start + length + frame_size - 16) & !0xf;
         if stack_layout.len() % 2 == 1 {
             // However, if we push an uneven amount of 64 bit values, we need to adjust
             stack_top -= 8;
